@@ -188,7 +188,7 @@ TRIPLE = re.compile(r"\(\s*(true|false)\s*,\s*(true|false)\s*,\s*(\d+)\s*\)")
 def eval_shard(args):
     path, n = args
     d = os.path.dirname(path)
-    rc, out, dt = sh(["coqc", "-Q", COQ, "Ebu", "-o", path + "o", path], cwd=d, timeout=1800)
+    rc, out, dt = sh(["coqc", "-Q", COQ, "Ebu", "-o", path + "o", path], cwd=d, timeout=900)
     if rc != 0:
         return dict(ok=False, err=out[-3000:], n=n, wall_s=dt)
     triples = [(a == "true", b == "true", int(k)) for a, b, k in TRIPLE.findall(out)]
